@@ -72,10 +72,12 @@ LEVEL_TEXT.update({
                               "code is the harness time-out."),
  "C19": dict(text="Theorems C19_rejected_before_anything_is_modified (wrong segment size, wrong stored version or unparsable settings: Err, filesystem literally "
                   "unchanged, only recorded call = CCreate of the empty LOCK), C19_rejected_open_is_invisible (any later history behaves identically), "
-                  "C19_reopen_with_other_n_rejected, C19_first_open_records_the_choice, C19_stored_choice_wins. K3: creation value x reopen value, stored versions, "
+                  "C19_reopen_with_other_n_rejected, C19_first_open_records_the_choice, C19_stored_choice_wins, C19_precreation_is_unobservable (from a fresh directory the "
+                  "same history on a pre-creating and on a lazily-creating configuration yields the same outputs - the ordered map's - and the same key map, both "
+                  "blob directories clean), C19_precreated_handle_restarts. K3: creation value x reopen value, stored versions, "
                   "directory compared byte for byte before/after the rejected open on the real library.",
-             note=BASE_NOTE + "serde_json rendering of db_settings.json is trusted (the model stores the typed document). 'Pre-creation does not change behaviour "
-                              "observably' is checked on the real library only (same history with and without the tree); no theorem for it."),
+             note=BASE_NOTE + "serde_json rendering of db_settings.json is trusted (the model stores the typed document). The unobservability theorem compares outputs and "
+                              "final key maps of fault-free histories from a fresh directory; the OutOpened payloads (scan statistics) are not compared."),
  "C20": dict(text="Theorem C20_at_rest: under DiskOk (preserved by every operation and restart: C02) every segment parses into complete checksummed records whose "
                   "versions lie in (i*N,(i+1)*N], strictly increase through the log, every version above the snapshot's is present, the snapshot decodes, and a "
                   "declarative reader (snapshot, then records above its version) yields exactly the acknowledged key map; C20_restart_keeps_next_version (no reuse "
@@ -113,11 +115,16 @@ LEVEL_TEXT.update({
                   "random exploration of the same programs; oracle: after every step every indexed key's blob file exists.",
              note=BASE_NOTE + "Atomicity of the code between two scheduling points, parking_lot's mutual exclusion and the thread scheduler (any interleaving of the "
                               "hook-delimited steps) are assumptions of the model; K6 covers small programs only. Bytes of WAL/snapshot are not in this model."),
- "C05": dict(text="Theorems C05_read_never_fails (no read of any reachable state ever reports a missing blob) and C05_read_returns_whole_indexed_content_partial (a returned "
-                  "content is the complete content of an item that was the key's value at one of the read's own lookup steps; the retry after a failed open answers from the "
-                  "key's current state under the read lock). K6 with readers parked between lookup and open; oracle: each read result is a value the key held during the call.",
-             note=BASE_NOTE + "Partial: full linearizability (real-time order of all writes, reads inside their call interval as a theorem) is not proved; the read-interval "
-                              "clause is decided by the K6 oracle on explored schedules. remove/remove_range are documented as not strictly atomic."),
+ "C05": dict(text="Theorems (props/C05.v, for every schedule of every set of thread programs of the concurrent model): C05_read_never_fails; "
+                  "C05_read_returns_whole_indexed_content; C05_read_linearizable (a finished get(k) has a step q of its own thread, strictly after the step that took the "
+                  "call and not after the step that returned, at which the key map held exactly what the read returned, and the returned bytes are the blob stored "
+                  "under that item's hash at q); C05_final_contents_are_a_sequential_order_of_the_writes (when all threads have finished, the key map is the fold of a "
+                  "log of write operations, sorted by application step, with exactly one entry per acknowledged writing call, each strictly inside its call's interval); "
+                  "C05_write_order_respects_real_time; C05_completed_put_is_visible. K6 with readers parked between lookup and open and model-free schedule "
+                  "exploration; oracle: each read result is a value the key held during the call.",
+             note=BASE_NOTE + "The model interleaves whole lock-protected sections of the real code (scheduling points = the verif::point hooks); relaxed-memory effects and "
+                              "the fairness of the real RwLock/Mutex are outside it. remove/remove_range are documented as not strictly atomic (they scan, then apply): the "
+                              "theorems linearize their read at the scan step and their write at the apply step."),
  "C09": dict(text="Theorems C09_powerloss_any_instant (one operation cut after ANY number of calls, ANY set of files losing their unsynced bytes: the next open succeeds "
                   "with the old or the new map), C09_at_rest_nothing_is_lost, C09_powerloss_history (histories with power losses during operations and during recovery), "
                   "and the Async counterexample. K3: power-loss images built from the REAL recorded call trace (shim log with data) for every cut point x every subset "
